@@ -131,6 +131,25 @@ def gen_C08(tier, seed):
                 valid_ok = udim != 'different' and uel != 'smaller'
                 p.write(1, valid=valid_ok, either=not valid_ok)
                 progs.append(p.build())
+    # one dataset under two channel names of ONE frame, with different cast dtypes
+    for i in range(4 if tier == 'quick' else 24):
+        p = Prog(f'C08-samedataset-{i}', {'kind': 'samedataset'})
+        lf, _ = base_lf(p)
+        route = ['dict', 'h5', 'struct', 'dict'][i % 4]
+        src = rand_array(rng, rng.choice(['int16', 'uint8', 'float32']), 4, rng.choice([None, 2]))
+        aid = p.array(src)
+        casts = [(None, 'float64'), ('float64', None), ('int32' if src.dtype.kind != 'f' else 'float64', 'float32' if src.dtype.kind == 'f' else 'float64'), (None, None)][i % 4]
+        ds = 'grp/shared' if route == 'h5' else 'shared'
+        x = p.channel(lf, 'X', dataset_name=ds, cast=casts[0])
+        if route == 'h5':
+            y = p.channel(lf, 'Y', dataset_name='/' + ds, cast=casts[1])
+        else:
+            y = p.channel(lf, 'Y', cast=casts[1])
+            p.steps.append({'op': 'set', 'obj': y, 'part': 'dataset_name', 'v': ds})
+        p._ch_ds[y] = ds
+        p.frame(lf, 'FR', [x, y])
+        p.write(1, route=route, data_arrays={x: aid, y: aid})
+        progs.append(p.build())
     # channels shared between frames / absent from all frames / one dataset under two channel names
     for i in range(6 if tier == 'quick' else 40):
         p = Prog(f'C08-share-{i}', {'kind': 'share'})
@@ -178,6 +197,19 @@ def gen_C04(tier, seed):
             for per_class in ((1, 2, 3) if tier == 'thorough' else (1, 2)):
                 i += 1
                 progs.append(all_classes_file('C04', i, rng, pattern, mult, per_class, named=(i % 3 == 0)).build())
+    # units without a value (keyword route, later assignment, and derived by the writer for a non-uniform index)
+    for k in range(3 if tier == 'quick' else 12):
+        p = Prog(f'C04-unitsonly-{k}', {'kind': 'unitsonly'})
+        lf, _ = base_lf(p)
+        idx = p.channel(lf, 'DEPTH', data=np.array([0.0, 1.0, 2.5, 7.0]), units=S('m'))
+        c = p.channel(lf, 'CH', data=np.arange(4, dtype='float32'))
+        p.frame(lf, 'FR', [idx, c], index_type=EN('FrameIndexType', 'BOREHOLE_DEPTH') if k % 3 != 1 else None)
+        p.add(lf, 'axis', 'AX', spacing=SETUP(units=S('m')))
+        eq = p.add(lf, 'equipment', 'EQ', length=DICT(units=EN('Unit', 'INCH') if False else S('in')), height=SETUP(F(1.5), S('m')))
+        p.set(eq, 'weight', S('kg'), part='units')
+        p.add(lf, 'path', 'PATH', time=SETUP(units=S('s')), depth_offset=SETUP(I(3), S('m')))
+        p.write(1)
+        progs.append(p.build())
     # degenerate multiplicities: empty list (either rejected or encoded faithfully)
     for k, (cls, attr) in enumerate([('comment', 'text'), ('channel', 'properties'), ('axis', 'coordinates'),
                                      ('long_name', 'conditions'), ('calibration_coefficient', 'coefficients'), ('tool', 'parts')]):
